@@ -14,7 +14,7 @@
 //! The data source is a small array-backed `PayloadSource` with 0-2 IPv4
 //! origins (fixed-layout PDUs only; see DESIGN §3 C07 for why the
 //! variable-length PDUs are out of reach).
-//! @jobs 4 @mem_gb 8 @quick_timeout 600 @thorough_timeout 3600 @thorough_mem_gb 24 @thorough_jobs 2
+//! @jobs 4 @mem_gb 8 @quick_timeout 600 @thorough_timeout 3600 @thorough_mem_gb 40 @thorough_jobs 1
 use crate::util::*;
 use rpki::resources::addr::{MaxLenPrefix, Prefix};
 use rpki::resources::asn::Asn;
@@ -746,6 +746,40 @@ fn respond_error() {
     assert!(be32(out, 20) == 14);
     assert!(out[24] == b'i' && out[37] == b'h');
     kani::cover!(code == 3);
+    std::mem::forget(res);
+    std::mem::forget(conn);
+}
+
+/// @tier thorough
+/// @expect fail C08-notify-mid-header
+/// @fn rpki::rtr::server::Connection::recv rpki::rtr::pdu::Header::read
+/// @bounds witness of a recorded finding, restricted to its failing class:
+///   one recv call on a connection whose client sends the 8 octets of a
+///   Reset Query (all but the type octet arbitrary) as 3 octets, a pause,
+///   then 5; the notification fires on the second poll; unwind 3
+/// @says when recv reports the notification, no octet of the client's query
+///   may have been taken off the socket without being part of a returned
+///   query (the connection has no field that could retain them).  On the
+///   current tree three octets are gone: select() drops the Header::read
+///   future together with what it has read, and the next recv misframes the
+///   stream (native demonstration: replays/C08-notify_mid_header_native.rs)
+/// @out every other fragmentation / schedule; the second recv call
+#[kani::proof]
+#[kani::unwind(3)]
+fn notify_mid_header_takes_bytes() {
+    let mut w: [u8; 8] = kani::any();
+    w[1] = 2;
+    unsafe {
+        verif::NOTIFY_POLLS = 0;
+        verif::NOTIFY_SCHEDULE = 0b10;
+    }
+    let sock = TwoPiece::<8> { input: w, pos: 0, cut: 3, stalled: false,
+                               eof_reads: 0 };
+    let mut conn = Conn::new(sock, ());
+    let res = block_on(conn.recv(), 2);
+    kani::cover!(matches!(res, Some(Ok(Some(VQuery::Notify)))));
+    assert!(matches!(res, Some(Ok(Some(VQuery::Notify)))));
+    assert!(conn.sock().pos == 0);
     std::mem::forget(res);
     std::mem::forget(conn);
 }
